@@ -161,7 +161,7 @@ class Assertion:
 class Database:
     """Reads a database text, checks declarations strictly, and verifies proofs on demand."""
 
-    def __init__(self, text: str, verify=True, strict=True, only=None):
+    def __init__(self, text: str, verify=True, strict=True, only=None, keep_trees=False):
         self.strict = strict
         self.frames = [Frame()]
         self.labels = {}            # label -> ('$f', tc, var) | ('$e', stmt) | Assertion
@@ -170,6 +170,9 @@ class Database:
         self.f_order = []           # (label, typecode, var, depth) of every $f in database order
         self.constants_declared = []
         self.results = {}           # label -> None (verified) | 'incomplete'
+        self.keep_trees = keep_trees
+        self.trees = {}             # label -> proof tree (label, (children...)) when keep_trees
+        self._tstack = None
         self._read(tokenize(text), verify, only)
 
     # ---- scope queries
@@ -373,6 +376,8 @@ class Database:
             stack.append((h[2], h[3]))
         else:
             stack.append(h[2])
+        if self._tstack is not None:
+            self._tstack.append((h[1], ()))
 
     def _apply(self, stack, a: Assertion, thm: Assertion, dvs_active, step):
         k = len(a.hyps)
@@ -380,6 +385,10 @@ class Database:
             raise MMError(f'{thm.label}: step {step} ({a.label}): stack underflow')
         args = stack[len(stack) - k:]
         del stack[len(stack) - k:]
+        if self._tstack is not None:
+            kids = tuple(self._tstack[len(self._tstack) - k:]) if k else ()
+            del self._tstack[len(self._tstack) - k:]
+            self._tstack.append((a.label, kids))
         sub = {}
         for h, arg in zip(a.hyps, args):
             if h[0] == '$f':
@@ -422,6 +431,7 @@ class Database:
             return 'incomplete'
         dvs_active = self._all_dvs()
         stack = []
+        self._tstack = [] if self.keep_trees else None
         if proof[0] == '(':
             try:
                 close = proof.index(')')
@@ -444,17 +454,22 @@ class Database:
                 if self.strict and any(h[1] == lab for h in mand):
                     raise MMError(f'{thm.label}: mandatory hypothesis {lab!r} in the label list')
             saved = []
+            tsaved = []
             for k, s in enumerate(steps):
                 if s == Z:
                     if not stack:
                         raise MMError(f'{thm.label}: Z with empty stack')
                     saved.append(stack[-1])
+                    if self._tstack is not None:
+                        tsaved.append(self._tstack[-1])
                 elif s <= m:
                     self._push_hyp(stack, mand[s - 1])
                 elif s <= m + len(listed):
                     self._step_label(stack, listed[s - m - 1], thm, dvs_active, k)
                 elif s <= m + len(listed) + len(saved):
                     stack.append(saved[s - m - len(listed) - 1])
+                    if self._tstack is not None:
+                        self._tstack.append(tsaved[s - m - len(listed) - 1])
                 else:
                     raise MMError(f'{thm.label}: step number {s} out of range')
         else:
@@ -464,6 +479,8 @@ class Database:
             raise MMError(f'{thm.label}: proof leaves {len(stack)} entries on the stack')
         if stack[0] != thm.stmt:
             raise MMError(f'{thm.label}: proved {" ".join(stack[0])} instead of {" ".join(thm.stmt)}')
+        if self._tstack is not None:
+            self.trees[thm.label] = self._tstack[0]
         return None
 
     def _step_label(self, stack, lab, thm, dvs_active, k):
@@ -480,10 +497,14 @@ class Database:
             if act is None or act[0] != lab:
                 raise MMError(f'{thm.label}: step {k}: hypothesis {lab} is not active')
             stack.append((ent[1], ent[2]))
+            if self._tstack is not None:
+                self._tstack.append((lab, ()))
         else:
             if not any(l == lab for fr in self.frames for l, _ in fr.e):
                 raise MMError(f'{thm.label}: step {k}: hypothesis {lab} is not active')
             stack.append(ent[1])
+            if self._tstack is not None:
+                self._tstack.append((lab, ()))
 
 
 def verify_text(text: str, strict=True, only=None):
@@ -494,3 +515,152 @@ def verify_text(text: str, strict=True, only=None):
         return None, str(e)
     except RecursionError:
         return None, 'recursion'
+
+
+# ------------------------------------------------------------------------------------------------
+# (c) structural image of Metamath terms as O1 patterns (decisions I1-I7 at the top of this file)
+# ------------------------------------------------------------------------------------------------
+class Unsupported(Exception):
+    """the statement is outside the fragment whose image is documented"""
+
+
+def parse_sexpr(tokens, is_var):
+    """tokens of ONE term -> tree: variable = str, application = (symbol, args...)"""
+    pos = 0
+
+    def term():
+        nonlocal pos
+        if pos >= len(tokens):
+            raise Unsupported('truncated term')
+        t = tokens[pos]
+        pos += 1
+        if t == '(':
+            if pos >= len(tokens):
+                raise Unsupported('truncated term')
+            sym = tokens[pos]
+            pos += 1
+            args = []
+            while pos < len(tokens) and tokens[pos] != ')':
+                args.append(term())
+            if pos >= len(tokens):
+                raise Unsupported('unbalanced term')
+            pos += 1
+            return (sym,) + tuple(args)
+        if t == ')':
+            raise Unsupported('unbalanced term')
+        return t if is_var(t) else (t,)
+
+    out = []
+    while pos < len(tokens):
+        out.append(term())
+    return out
+
+
+class Imager:
+    def __init__(self, db: Database):
+        from . import tb
+        self.tb = tb
+        self.db = db
+        self.variables = set()
+        self.mv_index = {}
+        self.other_vars = set()
+        for lab, tc, v, depth in db.f_order:
+            self.variables.add(v)
+            if tc == '#Pattern':
+                if v not in self.mv_index:
+                    self.mv_index[v] = len(self.mv_index)
+            else:
+                self.other_vars.add(v)
+        self.notations = {}
+        for a in db.assertions:
+            if a.kind == '$a' and a.stmt[0] == '#Notation' and not any(h[0] == '$e' for h in a.hyps):
+                try:
+                    ts = parse_sexpr(list(a.stmt[1:]), self.variables.__contains__)
+                except Unsupported:
+                    continue
+                if len(ts) != 2 or isinstance(ts[0], str):
+                    continue
+                lhs, rhs = ts
+                if not isinstance(rhs, str) and rhs[0] == lhs[0]:
+                    continue        # the converter ignores `#Notation ( f .. ) ( f .. )` congruence statements
+                if not all(isinstance(p, str) for p in lhs[1:]):
+                    continue
+                self.notations.setdefault(lhs[0], (lhs[1:], rhs))
+
+    def image(self, t, env=None):
+        tb = self.tb
+        if isinstance(t, str):
+            if env is not None and t in env:
+                return env[t]
+            if t in self.mv_index:
+                return tb.mv(self.mv_index[t])
+            raise Unsupported(f'variable {t} is not a #Pattern metavariable')
+        sym, args = t[0], t[1:]
+        if sym == '\\imp' and len(args) == 2:
+            return tb.im(self.image(args[0], env), self.image(args[1], env))
+        if sym == '\\app' and len(args) == 2:
+            return tb.ap(self.image(args[0], env), self.image(args[1], env))
+        if sym in ('\\exists', '\\mu'):
+            raise Unsupported('binders are outside the documented fragment')
+        if sym in self.notations:
+            params, rhs = self.notations[sym]
+            if len(params) != len(args):
+                raise Unsupported(f'notation {sym} used with {len(args)} arguments')
+            return self.image(rhs, {p: self.image(a, env) for p, a in zip(params, args)})
+        out = ('sy', sym)
+        for a in args:
+            out = tb.ap(out, self.image(a, env))
+        return out
+
+    def statement_image(self, stmt):
+        if stmt[0] != '|-':
+            raise Unsupported(f'typecode {stmt[0]}')
+        ts = parse_sexpr(list(stmt[1:]), self.variables.__contains__)
+        if len(ts) != 1:
+            raise Unsupported('statement is not one term')
+        return self.image(ts[0])
+
+    def assertion_image(self, a: Assertion):
+        if a.dvs:
+            raise Unsupported('$d')
+        concl = self.statement_image(a.stmt)
+        hyps = []
+        for h in a.hyps:
+            if h[0] == '$e':
+                hyps.append(self.statement_image(h[2]))
+        out = concl
+        for h in reversed(hyps):
+            out = self.tb.im(h, out)
+        return out
+
+    def exported_axioms(self):
+        """[(label, image | Unsupported instance)] in database order"""
+        out = []
+        for a in self.db.assertions:
+            if a.kind == '$a' and a.stmt[0] == '|-' and not a.label.startswith('proof-rule-'):
+                try:
+                    out.append((a.label, self.assertion_image(a)))
+                except Unsupported as e:
+                    out.append((a.label, e))
+        return out
+
+    def claims(self):
+        out = []
+        for a in self.db.assertions:
+            if a.kind == '$p' and a.stmt[0] == '|-':
+                try:
+                    out.append((a.label, self.assertion_image(a)))
+                except Unsupported as e:
+                    out.append((a.label, e))
+        return out
+
+
+def match_up_to_symbols(expected, got, fwd, bwd):
+    """expected: O6(c) image with ('sy', name); got: decoded term with ('sy', int).  Extends the bijection."""
+    from . import tb
+    f2, b2 = dict(fwd), dict(bwd)
+    if tb.match_symbols(expected, got, f2, b2):
+        fwd.clear(); fwd.update(f2)
+        bwd.clear(); bwd.update(b2)
+        return True
+    return False
